@@ -24,6 +24,7 @@ from .core import (Interp, TupleV, Closure, FuncRef, ClassRef, ExtRef, ObjV, Bou
 from .loader import Inconclusive, norm, dotted_of
 
 NONE = ("const", None)
+CLOSURES = {}      # (line, col) -> Closure, so that rules can look into lambda bodies
 OPS = {ast.Add: "+", ast.Sub: "-", ast.Mult: "*", ast.Div: "/", ast.FloorDiv: "//", ast.Mod: "%", ast.Pow: "**",
        ast.MatMult: "@", ast.BitAnd: "&", ast.BitOr: "|", ast.BitXor: "^", ast.LShift: "<<", ast.RShift: ">>"}
 CMPS = {ast.Eq: "==", ast.NotEq: "!=", ast.Lt: "<", ast.LtE: "<=", ast.Gt: ">", ast.GtE: ">=", ast.Is: "is",
@@ -45,6 +46,7 @@ def T(v):
         return ("slice", T(v.lower) if v.lower is not None else NONE, T(v.upper) if v.upper is not None else NONE,
                 T(v.step) if v.step is not None else NONE)
     if isinstance(v, Closure):
+        CLOSURES[(v.node.lineno, getattr(v.node, "col_offset", 0))] = v
         return ("closure", v.node.lineno, getattr(v.node, "col_offset", 0))
     if isinstance(v, FuncRef):
         return ("fn", v.func.qname)
